@@ -259,6 +259,30 @@ func ifEndsWithContinue(rel, fn string, markers []string, leanName string) func(
 	}
 }
 
+// stmtRangeKernel translates the statements of fn that lie strictly between the statement whose source starts with
+// `after` and the statement whose source starts with `before` (both must be direct children of the function body), in
+// their order, as one Lean definition returning `result` — so that moving a statement changes the term.
+func stmtRangeKernel(rel, fn, after, before, leanName, params, resultTy, result string, sp Spec) func() string {
+	return func() string {
+		fd := mustFunc(rel, fn)
+		lo, hi := -1, -1
+		for i, st := range fd.Body.List {
+			c := src(st)
+			if lo < 0 && strings.HasPrefix(c, after) {
+				lo = i
+			} else if lo >= 0 && hi < 0 && strings.HasPrefix(c, before) {
+				hi = i
+			}
+		}
+		if lo < 0 || hi < 0 || hi <= lo+1 {
+			panic(bail{fmt.Sprintf("%s: cannot delimit the statements between `%s` and `%s` in %s", rel, after, before, fn)})
+		}
+		t := &tr{sp: sp}
+		body := t.block(fd.Body.List[lo+1:hi], result, "  ")
+		return fmt.Sprintf("/-- generated from %s func %s: the statements between `%s…` and `%s…`, in order -/\ndef %s %s : %s :=\n  %s\n", rel, fn, after, before, leanName, params, resultTy, body)
+	}
+}
+
 func init() {
 	f := "scanner/fetcher.go"
 	ign := []string{"klog."}
@@ -303,6 +327,9 @@ func init() {
 			Spec{Kind: "i64", Repl: map[string]string{"b.Start": "bStart"}})},
 		{"addSequencedLeaves.retry", retrySwitchTable(m, "PreorderedLogClient.addSequencedLeaves", "retryTable")},
 		{"errRetry", errRetryKind(m, "errRetryIsRetriable")},
+		{"fetchTail.range", stmtRangeKernel(c, "Controller.fetchTail", "fo := c.opts.FetcherOptions", "klog.Infof(\"%s: fetching range", "fetchTailRange",
+			"(startIndex endIndex : Int) (continuous : Bool) (treeSize_ begin_ : Int)", "Int × Int × Bool", "(startIndex, endIndex, continuous)",
+			Spec{Kind: "i64", Vars: map[string]string{"fo.StartIndex": "startIndex", "fo.EndIndex": "endIndex", "fo.Continuous": "continuous"}})},
 		{"fetchTail.uptodate", condKernel(c, "Controller.fetchTail", []string{"sth.TreeSize <= begin"}, "fetchTailUpToDate", "(sthSize begin_ : Int)",
 			Spec{Kind: "u64", Repl: map[string]string{"sth.TreeSize": "sthSize"}})},
 		{"fetchTail.begin", condKernel(c, "Controller.fetchTail", []string{"int64(begin) > fo.StartIndex"}, "fetchTailBeginWins", "(begin_ startIndex : Int)",
